@@ -24,11 +24,6 @@ def hist (P R : List QE) (s : St) : List QE := P ++ R ++ s.queue
 def Done (P : List QE) (cur : Option (QE × Nat)) (e : QE) (j : Nat) : Prop :=
   e ∈ P ∨ ∃ i, cur = some (e, i) ∧ j < i
 
-/-- All struct declarations reachable from the root are well-formed (model action = documented kind);
-implied by an error-free run for every struct the search processes. -/
-def ReachGood (g : Graph) (root : StructId) : Prop :=
-  ∀ p s, Reach g root p s → ∀ i d, FieldAt g s i d → GoodDecl d
-
 structure Inv (g : Graph) (root : StructId) (k : Nat) (P R : List QE) (cur : Option (QE × Nat)) (s : St) : Prop where
   depthP : ∀ e ∈ P, e.index.length ≤ k
   depthR : ∀ e ∈ R, e.index.length = k
